@@ -29,7 +29,7 @@ FLOORS = {'quick': {'rejected': 1000, 'readd': 50, 'rename': 1000}, 'thorough': 
 TABLES = ['A', 'A2', 'B', 'C', 'D', 'E']
 ENUMS = ['E1', 'E1c', 'E2', 'E3']
 GROUPS = ['G1', 'G2', 'G3']
-REFS = ['R1', 'R1c', 'R2', 'R3', 'R4']       # R3: tables in no database; R4: tables in another database
+REFS = ['R1', 'R1c', 'R2', 'R3', 'R4', 'R5']  # R3: tables in no database; R4: tables in another database; R5: inline
 STICKY = ['S1', 'S2']
 PROJ = ['P1', 'P2']
 BAD = ['X1', 'X2']
@@ -39,7 +39,7 @@ RENAMES = [('A', 'name', 'a9'), ('A', 'name', 'a'), ('B', 'alias', 'y'), ('B', '
 COLS = ['K1', 'K2', 'K3']
 IDX = ['I1', 'I2', 'IF']       # IF has a foreign column as subject
 TOPS = [('add', o) for o in OBJS] + [('delete', o) for o in OBJS if o not in BAD] + [('delete', 'X1')] + \
-       [('rename',) + r for r in RENAMES]
+       [('rename',) + r for r in RENAMES] + [('render', 'sql'), ('render', 'dbml')]
 TABLE_OPS = [('add_column', t, k) for t in ('A', 'E') for k in COLS] + [('delete_column', t, k) for t in ('A', 'E') for k in COLS] + \
             [('delete_column_pos', t, p) for t in ('A', 'E') for p in (0, -1)] + \
             [('add_index', t, i) for t in ('A',) for i in IDX] + [('delete_index', 'A', i) for i in IDX] + [('delete_index_pos', 'A', 0)] + \
@@ -75,6 +75,7 @@ class World:
         o['R1c'] = Reference('>', o['A'].columns[0], o['B'].columns[0])
         o['R2'] = Reference('<', o['B'].columns[0], o['E'].columns[0], name='r2')
         o['R3'] = Reference('-', self.out1.columns[0], self.out2.columns[0])
+        o['R5'] = Reference('>', o['E'].columns[1], o['B'].columns[0], inline=True)
         self.db2 = Database()
         self.in2a, self.in2b = table('in2a'), table('in2b')
         self.db2.add(self.in2a)
@@ -93,7 +94,7 @@ class World:
         self.m = {'tables': [], 'enums': [], 'groups': [], 'refs': [], 'sticky': [], 'project': None}
         self.cols = {n: list(o[n].columns) for n in TABLES}
         self.idx = {n: [] for n in TABLES}
-        self.ref_tables = {'R1': ('A', 'B'), 'R1c': ('A', 'B'), 'R2': ('B', 'E'), 'R3': (), 'R4': ()}
+        self.ref_tables = {'R1': ('A', 'B'), 'R1c': ('A', 'B'), 'R2': ('B', 'E'), 'R3': (), 'R4': (), 'R5': ('E', 'B')}
 
     # -- model helpers ---------------------------------------------------------------------------
     def keys_of(self, name):
@@ -216,6 +217,16 @@ def apply(w: World, op):
         if st_ == 'accepted' and not reject:
             m[lst].remove(n)
         return st_, probs
+    if kind == 'render':
+        # an observer: evaluating a rendering must not change the container (a refusal of an inconsistent
+        # intermediate state by one of the library's own exceptions is fine)
+        try:
+            getattr(db, op[1])
+        except tuple(v for v in vars(E).values() if isinstance(v, type) and issubclass(v, Exception)):
+            pass
+        except Exception as e:  # noqa
+            probs.append(f'{op}: rendering raised {type(e).__name__}: {e}')
+        return 'accepted', probs
     if kind == 'rename':
         _, n, attr, val = op
         t = o[n]
@@ -483,6 +494,14 @@ def shard(ctx: Ctx):
         for k, ops in enumerate(itertools.product(TABLE_OPS, repeat=d)):
             if k % ctx.nshards == ctx.shard:
                 ctx.add(evaluate(list(ops), ctx, 'exhaustive-table'))
-    ctx.exhaustive_arms.append(f'all histories of depth <= {depth} over {len(TOPS)} container operations and over {len(TABLE_OPS)} table operations')
+    # renderings as observers between operations: a reduced operation set, one level deeper
+    focus = [('add', 'A'), ('add', 'B'), ('add', 'E'), ('add', 'R1'), ('add', 'R2'), ('add', 'R5'), ('delete', 'B'), ('delete', 'E'),
+             ('render', 'sql'), ('render', 'dbml'), ('rename', 'B', 'alias', 'y')]
+    for d in range(1, depth + 2):
+        for k, ops in enumerate(itertools.product(focus, repeat=d)):
+            if k % ctx.nshards == ctx.shard:
+                ctx.add(evaluate(list(ops), ctx, 'exhaustive-render'))
+    ctx.exhaustive_arms.append(f'all histories of depth <= {depth} over {len(TOPS)} container operations and over {len(TABLE_OPS)} table operations; '
+                               f'all histories of depth <= {depth + 1} over {len(focus)} operations with renderings as observers')
     hyp_run(ctx, 'deep', st.lists(st.sampled_from(ALL_OPS), min_size=4, max_size=60), lambda ops: evaluate(ops, ctx, 'deep'),
             600 if quick else 8000)
